@@ -170,6 +170,102 @@ theorem refines_cas_register (ops : List (Op V)) (s : State) (hc : Coherent s) :
   obtain ⟨s', e, _, a⟩ := run_refines valid ver ops s hc
   rw [e]; exact ⟨rfl, a⟩
 
+/-! ### through the API handler (`ConfigHandlerImpl.ApplyConfig`): if_match is a precondition for EVERY candidate -/
+
+/-- the handler answers OK only if if_match is the current version — whatever the candidate, including one that
+    resolves to the configuration already in effect (re-submitted document, empty merge patch, same routes) -/
+theorem api_ok_requires_current_version (a : ApiState) (hc : Coherent a.gate) (req : ApiReq V)
+    (h : (apiApply valid ver a req).2.code = .ok) : req.ifMatch = some (ver a.gate.cur) := by
+  obtain ⟨ho, _⟩ := apiApply_outcome valid ver a hc req
+  generalize apiApply valid ver a req = st at ho h
+  obtain ⟨a1, x⟩ := st
+  simp only at ho h ⊢
+  cases ho with
+  | same e h1 h2 h3 h4 => rw [h1, h4]
+  | applied e c h1 h2 h3 h4 h5 => rw [h1, h4]
+  | _ => simp at h
+
+/-- a stale / arbitrary / missing version is refused and changes nothing — for every candidate, in particular
+    (`req.cand = some a.gate.cur`) one equal to the configuration in effect -/
+theorem api_wrong_version_refused (a : ApiState) (hc : Coherent a.gate) (req : ApiReq V)
+    (hm : req.ifMatch ≠ some (ver a.gate.cur)) :
+    (apiApply valid ver a req).2.code ≠ .ok ∧ (apiApply valid ver a req).1 = a := by
+  obtain ⟨ho, _⟩ := apiApply_outcome valid ver a hc req
+  generalize apiApply valid ver a req = st at ho
+  obtain ⟨a1, x⟩ := st
+  simp only at ho ⊢
+  cases ho with
+  | same e h1 h2 h3 h4 => exact absurd (by rw [h1, h4]) hm
+  | applied e c h1 h2 h3 h4 h5 => exact absurd (by rw [h1, h4]) hm
+  | _ => exact ⟨by simp, rfl⟩
+
+/-- OK means: the candidate was valid and either equal to the current content or a route-only change of it; it
+    is now the current configuration and the returned version is its version -/
+theorem api_ok_publishes_the_candidate (a : ApiState) (hc : Coherent a.gate) (req : ApiReq V)
+    (h : (apiApply valid ver a req).2.code = .ok) :
+    ∃ c, req.cand = some c ∧ valid c = true ∧ (c = a.gate.cur ∨ RouteOnlyChange a.gate.cur c) ∧
+      (apiApply valid ver a req).1.gate.cur = c ∧ (apiApply valid ver a req).2.version = some (ver c) := by
+  obtain ⟨ho, _⟩ := apiApply_outcome valid ver a hc req
+  generalize apiApply valid ver a req = st at ho h
+  obtain ⟨a1, x⟩ := st
+  simp only at ho h ⊢
+  cases ho with
+  | same e h1 h2 h3 h4 => exact ⟨_, h2, h3, Or.inl rfl, rfl, rfl⟩
+  | applied e c h1 h2 h3 h4 h5 => exact ⟨c, h2, h3, Or.inr h5, rfl, rfl⟩
+  | _ => simp at h
+
+/-- every refusal leaves the Gate, the proxy and the persisted file untouched -/
+theorem api_rejected_changes_nothing (a : ApiState) (hc : Coherent a.gate) (req : ApiReq V)
+    (h : (apiApply valid ver a req).2.code ≠ .ok) : (apiApply valid ver a req).1 = a := by
+  obtain ⟨ho, _⟩ := apiApply_outcome valid ver a hc req
+  generalize apiApply valid ver a req = st at ho h
+  obtain ⟨a1, x⟩ := st
+  simp only at ho h ⊢
+  cases ho with
+  | same e h1 h2 h3 h4 => simp at h
+  | applied e c h1 h2 h3 h4 h5 => simp at h
+  | _ => rfl
+
+/-- the file is written only by a successful request that asked for it, and then holds its candidate -/
+theorem api_persists_only_on_success (a : ApiState) (hc : Coherent a.gate) (req : ApiReq V)
+    (h : (apiApply valid ver a req).1.file ≠ a.file) :
+    (apiApply valid ver a req).2.code = .ok ∧ req.persist = true ∧ (apiApply valid ver a req).1.file = req.cand := by
+  obtain ⟨ho, _⟩ := apiApply_outcome valid ver a hc req
+  generalize apiApply valid ver a req = st at ho h
+  obtain ⟨a1, x⟩ := st
+  simp only at ho h ⊢
+  cases ho with
+  | same e h1 h2 h3 h4 =>
+    cases hp : req.persist <;> simp_all
+  | applied e c h1 h2 h3 h4 h5 =>
+    cases hp : req.persist <;> simp_all
+  | _ => exact absurd rfl h
+
+/-- with the current version, a valid no-op or route-only candidate is accepted -/
+theorem api_current_version_accepted (a : ApiState) (hc : Coherent a.gate) (req : ApiReq V) (c : Config)
+    (hm : req.ifMatch = some (ver a.gate.cur)) (hcand : req.cand = some c) (hv : valid c = true)
+    (hr : c = a.gate.cur ∨ RouteOnlyChange a.gate.cur c) : (apiApply valid ver a req).2.code = .ok := by
+  obtain ⟨ho, _⟩ := apiApply_outcome valid ver a hc req
+  generalize apiApply valid ver a req = st at ho
+  obtain ⟨a1, x⟩ := st
+  simp only at ho ⊢
+  cases ho with
+  | same => rfl
+  | applied => rfl
+  | noVersion h1 => rw [hm] at h1; cases h1
+  | undecodable h1 => rw [hcand] at h1; cases h1
+  | invalid c' h1 h2 => rw [hcand] at h1; cases h1; rw [hv] at h2; cases h2
+  | stale e c' h1 h2 h3 h4 => rw [hm] at h1; cases h1; exact absurd rfl h4
+  | unsupported e c' h1 h2 h3 h4 h5 h6 =>
+    rw [hcand] at h2; cases h2
+    rcases hr with hr | hr
+    · exact absurd hr h5
+    · exact absurd hr h6
+
+/-- the handler still preserves Gate/proxy coherence, so all of the above holds along every API history -/
+theorem api_preserves_coherence (a : ApiState) (hc : Coherent a.gate) (req : ApiReq V) :
+    Coherent (apiApply valid ver a req).1.gate := (apiApply_outcome valid ver a hc req).2
+
 /-! ### all interleavings of concurrent appliers -/
 
 /-- Linearizability.  Threads run  Lock ; load ; compute+store ; Unlock  with the request body `step`; for every
